@@ -210,8 +210,34 @@ def do_einsum(it, args, kwargs, node, kind="tensor"):
     ts = [tterm(o) for o in ops]
     t = None
     if all(x is not None for x in ts) and 1 <= len(ts) <= 3:
-        t = T.app("einsum%d" % len(ts), spec_n, *ts)
+        t = einsum_as_matmul(spec_n, ts) if len(ts) == 2 else None
+        if t is None:
+            t = T.app("einsum%d" % len(ts), spec_n, *ts)
     return it.fresh(t, shape, kind, node)
+
+
+def einsum_as_matmul(spec, ts):
+    """Two-operand einsum specs that are plain matrix products get the matmul normal form."""
+    ins, out = parse_einsum(spec)
+    if len(ins) != 2:
+        return None
+    A, B = ins
+    pa = A.replace("...", "")
+    if not pa or "..." in B or "..." in A[A.find("...") + 3:] if "..." in A else False:
+        return None
+    c = pa[-1]
+    prefix = A[:-1]  # may contain the ellipsis
+    if c in out or pa.count(c) != 1 or B.count(c) != 1 or any(l in pa[:-1] for l in B if l != c):
+        return None
+    if B == c and out == prefix:
+        return T.app("matmul", ts[0], ts[1])
+    if len(B) == 2:
+        k = B.replace(c, "")
+        if out == prefix + k:
+            if B == c + k:
+                return T.app("matmul", ts[0], ts[1])
+            return T.app("matmul", ts[0], T.app("t", ts[1]))
+    return None
 
 
 def literal_tensor(it, v, node, kind="tensor"):
